@@ -312,6 +312,9 @@ func c08Alphabet(m *c08Model, thorough bool) []c08Op {
 			ops = append(ops, c08Op{K: "rawmutate", Shape: reg, Fill: f})
 		}
 	}
+	// a mutating write that only redistributes voxels: two equal boxes on either side of a block border exchange their
+	// contents, so every body keeps its voxel total while its per-block (and per-supervoxel) counts change
+	ops = append(ops, c08Op{K: "rawmutate", Shape: "slab", Fill: "swap"})
 	ops = append(ops, c08Op{K: "newversion"}, c08Op{K: "branch"})
 	// two open versions at once: "fork" opens a sibling of the current leaf (a second child of its committed parent) and
 	// moves there; "switch" moves the focus to another open version. Later operations then alternate between siblings.
@@ -546,6 +549,14 @@ func (w *c08World) apply(op c08Op) (code int, desc string, viols []c08Viol) {
 					val := v.sv[c08Idx(x, y, z)]
 					if x >= lo[0] && x < hi[0] && y >= lo[1] && y < hi[1] && z >= lo[2] && z < hi[2] {
 						val = fill
+						if op.Fill == "swap" {
+							// the region is [8,24) in X: its half in block 0 and its half in block 1 exchange contents
+							if x < 16 {
+								val = v.sv[c08Idx(x+8, y, z)]
+							} else {
+								val = v.sv[c08Idx(x-8, y, z)]
+							}
+						}
 					}
 					vol.set(x, y, z, val)
 				}
